@@ -3,8 +3,12 @@
 package c07
 
 import (
+	"bufio"
 	"bytes"
+	"crypto/tls"
+	"crypto/x509"
 	"fmt"
+	"github.com/google/martian/v3/mitm"
 	"io"
 	"net"
 	"net/http"
@@ -45,6 +49,9 @@ type Conn struct {
 	// bytes); responses beyond the 4096-byte write buffer leave the proxy in
 	// several writes after shutdown was requested.
 	Size int `json:"size,omitempty"`
+	// Fail: the origin of the exchange in flight cannot be reached, so the
+	// response the exchange receives is the proxy's own 502.
+	Fail bool `json:"fail,omitempty"`
 }
 
 // Case is 1..3 connections, the order in which parked exchanges are released
@@ -63,6 +70,10 @@ type Case struct {
 	// *net.TCPConn, as in cmd/proxy); "closed by the time Close() returned" is
 	// then judged from the client side only.
 	RawListener bool `json:"raw_listener,omitempty"`
+	// TLSListener: the proxy serves tls.NewListener(...) (as cmd/proxy does for
+	// -tls-address); clients handshake first. Extra points there: tls-no-hello
+	// (connected, no ClientHello yet) and tls-half-hello (first bytes of one).
+	TLSListener bool `json:"tls_listener,omitempty"`
 }
 
 // trackListener records when each accepted connection's Close has completed.
@@ -109,7 +120,15 @@ func (c *trackConn) Close() (err error) {
 	return err
 }
 
-var inflight = map[string]bool{"reqmod": true, "roundtrip": true, "resmod": true, "writing": true, "uploading": true}
+// Points of a MITM tunnel being set up (SetMITM configured):
+//
+//	mitm-connect-reqmod   the CONNECT is inside the request modifier
+//	mitm-awaiting-hello   the CONNECT was answered 200, the client has not started its handshake
+//
+// For these the client carries on with the handshake when it is "released";
+// nothing is demanded of the CONNECT's own answer, only that nothing hangs and
+// the connection is closed.
+var inflight = map[string]bool{"reqmod": true, "roundtrip": true, "resmod": true, "writing": true, "uploading": true, "mitm-connect-reqmod": true, "mitm-awaiting-hello": true}
 
 const bigBody = 32 << 20
 
@@ -177,7 +196,11 @@ func (r gatedRT) RoundTrip(req *http.Request) (*http.Response, error) {
 }
 
 func request(id string) string {
-	return fmt.Sprintf("GET http://origin.test/%s HTTP/1.1\r\nHost: origin.test\r\nX-Verif-Id: %s\r\n\r\n", id, id)
+	host := "origin.test"
+	if strings.Contains(id, "-fail") {
+		host = "down.test"
+	}
+	return fmt.Sprintf("GET http://%s/%s HTTP/1.1\r\nHost: %s\r\nX-Verif-Id: %s\r\n\r\n", host, id, host, id)
 }
 
 var (
@@ -228,14 +251,40 @@ type client struct {
 }
 
 func runOnce(c Case, T time.Duration) (v kit.Verdict) {
-	origin := netkit.NewOrigin(func(r *netkit.ReqLog) netkit.Script {
+	handler := func(r *netkit.ReqLog) netkit.Script {
 		id := r.Header.Get("X-Verif-Id")
 		b := bodyFor(id)
 		head := fmt.Sprintf("HTTP/1.1 200 OK\r\nContent-Length: %d\r\nX-Origin-Id: %s\r\n\r\n", len(b), id)
 		return netkit.Script{Raw: append([]byte(head), b...), CutAt: -1}
-	})
+	}
+	var origin *netkit.Origin
+	if c.TLSListener {
+		// requests read from a TLS connection are forwarded over TLS
+		origin = netkit.NewTLSOrigin(netkit.ServerTLS("origin.test"), handler)
+	} else {
+		origin = netkit.NewOrigin(handler)
+	}
 	defer origin.Close()
-	dialer := &netkit.Dialer{Route: func(string) string { return origin.Addr }}
+	dialer := &netkit.Dialer{Route: func(addr string) string {
+		if strings.HasPrefix(addr, "down.test") {
+			return ""
+		}
+		return origin.Addr
+	}}
+	needMITM := c.TLSListener
+	for _, cn := range c.Conns {
+		if strings.HasPrefix(cn.Point, "mitm-") {
+			needMITM = true
+		}
+	}
+	var mc *mitm.Config
+	var pool *x509.CertPool
+	if needMITM {
+		var err error
+		if mc, pool, err = netkit.MITM(); err != nil {
+			return kit.Failf("C07/harness/mitm", "%v", err)
+		}
+	}
 	g := newGates()
 	origin.Early = func(r *netkit.ReqLog) *netkit.Script {
 		// the origin has the head of an upload whose body is still on its way
@@ -255,7 +304,13 @@ func runOnce(c Case, T time.Duration) (v kit.Verdict) {
 	}
 	p := martian.NewProxy()
 	p.SetTimeout(60 * time.Second)
+	if c.TLSListener {
+		netkit.UpstreamTLS(p)
+	}
 	p.SetDial(dialer.Dial)
+	if mc != nil && !c.TLSListener {
+		p.SetMITM(mc)
+	}
 	p.SetRoundTripper(gatedRT{g, p.GetRoundTripper()})
 	p.SetRequestModifier(g)
 	p.SetResponseModifier(g)
@@ -265,6 +320,9 @@ func runOnce(c Case, T time.Duration) (v kit.Verdict) {
 	}
 	pr := netkit.Start(p, func(l net.Listener) net.Listener {
 		tl.Listener = l
+		if c.TLSListener {
+			return tls.NewListener(tl, mc.TLS())
+		}
 		if c.RawListener {
 			if c.Shaped {
 				return trafficshape.NewListener(l)
@@ -308,6 +366,16 @@ func runOnce(c Case, T time.Duration) (v kit.Verdict) {
 		if err != nil {
 			return kit.Failf("C07/harness/dial", "%v", err)
 		}
+		if c.TLSListener && !strings.HasPrefix(cn.Point, "tls-") {
+			tc := tls.Client(cl.Conn, &tls.Config{RootCAs: pool, ServerName: "origin.test"})
+			tc.SetDeadline(time.Now().Add(T))
+			if err := tc.Handshake(); err != nil {
+				cl.Close()
+				return kit.Failf("C07/harness/tls-handshake-failed-timeout", "connection %d: %v", i, err)
+			}
+			tc.SetDeadline(time.Time{})
+			cl = &netkit.Client{Conn: tc, BR: bufio.NewReaderSize(tc, 64<<10)}
+		}
 		k := &client{cl: cl, point: cn.Point, resDone: make(chan struct{})}
 		clients = append(clients, k)
 		if strings.HasSuffix(cn.Point, "-after") {
@@ -338,12 +406,32 @@ func runOnce(c Case, T time.Duration) (v kit.Verdict) {
 			case <-time.After(T):
 				return kit.Failf("C07/harness/exchange-not-parked-timeout", "connection %d: the origin never saw the head of the upload", i)
 			}
+		case cn.Point == "tls-half-hello":
+			cl.Write([]byte{0x16, 0x03, 0x01})
+		case cn.Point == "mitm-connect-reqmod":
+			k.id = fmt.Sprintf("cx%d", i)
+			g.add(k.id, "reqmod")
+			cl.Write([]byte("CONNECT secure.test:443 HTTP/1.1\r\nHost: secure.test:443\r\nX-Verif-Id: " + k.id + "\r\n\r\n"))
+			select {
+			case <-g.arrived[k.id]:
+			case <-time.After(T):
+				return kit.Failf("C07/harness/exchange-not-parked-timeout", "connection %d: the CONNECT never reached the request modifier", i)
+			}
+		case cn.Point == "mitm-awaiting-hello":
+			k.id = fmt.Sprintf("cy%d", i)
+			cl.Write([]byte("CONNECT secure.test:443 HTTP/1.1\r\nHost: secure.test:443\r\nX-Verif-Id: " + k.id + "\r\n\r\n"))
+			if res, _, err := cl.ReadResponse("CONNECT", T); err != nil || res.Status != 200 {
+				return kit.Failf("C07/harness/connect-not-answered-timeout", "connection %d: %v %+v", i, err, res)
+			}
 		case strings.HasPrefix(cn.Point, "head-"):
 			cl.Write([]byte("GET http://origin.test/partial HTTP/1.1\r\nHost: origin.te"))
 		case inflight[cn.Point]:
 			k.id = fmt.Sprintf("x%d", i)
 			if cn.Size > 0 {
 				k.id = fmt.Sprintf("x%d-s%d", i, cn.Size)
+			}
+			if cn.Fail && (cn.Point == "reqmod" || cn.Point == "roundtrip") {
+				k.id = fmt.Sprintf("x%d-fail", i)
 			}
 			if cn.Point == "writing" {
 				k.id = fmt.Sprintf("big-%d", i)
@@ -416,6 +504,35 @@ func runOnce(c Case, T time.Duration) (v kit.Verdict) {
 			v.Addf("C07/shutdown/"+k.point+"/close-returned-with-exchange-in-flight", "Close() returned while the exchange on connection %d was still parked at %s", idx, k.point)
 		default:
 		}
+		if strings.HasPrefix(k.point, "mitm-") {
+			// the tunnel that was being set up when shutdown began: the client carries on
+			pre := "C07/tunnel-setup/" + k.point + "/"
+			if k.point == "mitm-connect-reqmod" {
+				g.mu.Lock()
+				close(g.release[k.id])
+				g.mu.Unlock()
+				if _, _, err := k.cl.ReadResponse("CONNECT", T); err != nil && netkit.IsTimeout(err) {
+					v.Addf(pre+"timeout-connect-neither-answered-nor-closed", "connection %d: the CONNECT parked in the request modifier at shutdown was neither answered nor closed within %v of its release: %v", idx, T, err)
+					parkedLeft--
+					continue
+				}
+			}
+			tc := tls.Client(k.cl.Conn, &tls.Config{RootCAs: pool, ServerName: "secure.test"})
+			tc.SetDeadline(time.Now().Add(T))
+			herr := tc.Handshake()
+			if herr == nil {
+				// a request inside the tunnel may or may not be answered any more (its
+				// connection was accepted before shutdown began); either way the
+				// connection must be closed
+				tc.Write([]byte("GET /late HTTP/1.1\r\nHost: secure.test\r\nX-Verif-Id: late-in-tunnel\r\n\r\n"))
+				_, herr = io.Copy(io.Discard, tc)
+			}
+			if netkit.IsTimeout(herr) {
+				v.Addf(pre+"timeout-connection-not-closed", "connection %d: the client went on with its TLS handshake inside the tunnel after shutdown began; %v later the connection is still open and nothing was answered: %v", idx, T, herr)
+			}
+			parkedLeft--
+			continue
+		}
 		if k.point == "uploading" {
 			k.cl.Write([]byte(uploadBody[len(uploadBody)/2:]))
 		} else if k.point != "writing" {
@@ -430,6 +547,9 @@ func runOnce(c Case, T time.Duration) (v kit.Verdict) {
 		res, _, err := k.cl.ReadResponse(method, T)
 		k.res, k.resErr = res, err
 		pre := "C07/exchange/" + k.point + "/"
+		if strings.HasSuffix(k.id, "-fail") {
+			pre = "C07/exchange-with-failing-round-trip/" + k.point + "/"
+		}
 		if c.Shaped {
 			pre = "C07/exchange-on-shaped-listener/" + k.point + "/"
 		}
@@ -447,7 +567,11 @@ func runOnce(c Case, T time.Duration) (v kit.Verdict) {
 			}
 			v.Addf(pre+class, "connection %d (%s): body ended after %d of %d bytes: %v", idx, k.point, len(res.Body), len(bodyFor(k.id)), res.BodyErr)
 		default:
-			if res.Status != 200 || !bytes.Equal(res.Body, bodyFor(k.id)) {
+			if strings.HasSuffix(k.id, "-fail") {
+				if res.Status != 502 {
+					v.Addf(pre+"wrong-response", "connection %d (%s): the origin is unreachable, status %d", idx, k.point, res.Status)
+				}
+			} else if res.Status != 200 || !bytes.Equal(res.Body, bodyFor(k.id)) {
 				v.Addf(pre+"wrong-response", "connection %d (%s): status %d, body %s", idx, k.point, res.Status, kit.Diff(bodyFor(k.id), res.Body))
 			}
 			if k.point != "writing" && !res.Close {
@@ -575,8 +699,15 @@ func genCase(t *rapid.T) Case {
 			}
 		}
 		cn := Conn{Point: pt}
-		if inflight[pt] && pt != "writing" {
+		if rapid.IntRange(0, 7).Draw(t, "mitm_setup") == 0 {
+			cn.Point = rapid.SampledFrom([]string{"mitm-connect-reqmod", "mitm-awaiting-hello"}).Draw(t, "mitm_point")
+			pt = cn.Point
+		}
+		if inflight[pt] && pt != "writing" && !strings.HasPrefix(pt, "mitm-") {
 			cn.Size = rapid.SampledFrom([]int{0, 0, 4000, 5000, 70000, 300000}).Draw(t, "size")
+			if (pt == "reqmod" || pt == "roundtrip") && rapid.IntRange(0, 3).Draw(t, "fail") == 0 {
+				cn.Fail, cn.Size = true, 0
+			}
 		}
 		c.Conns = append(c.Conns, cn)
 	}
@@ -585,6 +716,19 @@ func genCase(t *rapid.T) Case {
 		c.RawListener, c.SlowClose = true, false
 	}
 	c.Shaped = rapid.IntRange(0, 3).Draw(t, "shaped") == 0
+	if !c.Shaped && rapid.IntRange(0, 5).Draw(t, "tls_listener") == 0 {
+		// a TLS listener: no CONNECT tunnels (the listener already decrypts), and
+		// some connections have not finished their handshake when shutdown comes
+		c.TLSListener, c.RawListener = true, false
+		for i := range c.Conns {
+			switch {
+			case strings.HasPrefix(c.Conns[i].Point, "mitm-"):
+				c.Conns[i].Point = "tls-no-hello"
+			case c.Conns[i].Point == "idle-fresh" || c.Conns[i].Point == "head-fresh":
+				c.Conns[i].Point = rapid.SampledFrom([]string{"tls-no-hello", "tls-half-hello", "idle-fresh"}).Draw(t, "tls_point")
+			}
+		}
+	}
 	c.NewDuring = rapid.Bool().Draw(t, "new_during")
 	c.NewAfter = rapid.Bool().Draw(t, "new_after")
 	finish(&c, func(k int) []int {
@@ -635,7 +779,13 @@ func classes(c Case) []string {
 	if c.RawListener {
 		set["bare-tcp-listener"] = true
 	}
+	if c.TLSListener {
+		set["tls-listener"] = true
+	}
 	for _, cn := range c.Conns {
+		if cn.Fail {
+			set["in-flight-round-trip-fails"] = true
+		}
 		if cn.Size > 4096 {
 			set["in-flight-response>4KiB"] = true
 			if c.Shaped && c.NewDuring {
